@@ -38,8 +38,32 @@ def budget(tier):
     return dict(examples=3000, shards=16, shrink_calls=3000)
 
 
+@st.composite
+def _case(draw, nmax):
+    case = draw(L.reaction_file(nmax=nmax))
+    if not case.get("elements") and draw(st.integers(0, 3)) == 0:
+        # a second file (merged databases): read through the constructor's file list or added to the populated network;
+        # its lines may reuse index values of the first file - every line still decodes to what *it* says
+        second = draw(L.reaction_file(fmt=draw(st.sampled_from(["kida", "umist", "leeds", "naunet"])), nmax=6))
+        if not second.get("elements"):
+            first_idx = [lr["idx"] for lr in case["expected"] if lr.get("idx", -1) not in (-1, None)]
+            pos = [k for k, ln in enumerate(second["lines"]) if ln.strip() != ""]
+            if first_idx and len(pos) == len(second["expected"]):
+                for j, k in enumerate(pos):
+                    if draw(st.booleans()):
+                        old_idx = second["expected"][j]["idx"]
+                        second["expected"][j]["idx"] = draw(st.sampled_from(first_idx))
+                        try:
+                            second["lines"][k] = L.encode(second["expected"][j], second.get("variant", {}))
+                        except ValueError:  # the value does not fit this format's index column: keep the line as it was
+                            second["expected"][j]["idx"] = old_idx
+            case["second"] = second
+            case["second_route"] = draw(st.sampled_from(["constructor-list", "add-from-file"]))
+    return case
+
+
 def strategy(tier):
-    return L.reaction_file(nmax=12 if tier == "quick" else 40)
+    return _case(12 if tier == "quick" else 40)
 
 
 def fixed_cases(tier):
@@ -64,7 +88,20 @@ def read_network(case):
         kw = {}
         if case.get("elements"):
             kw = dict(elements=list(case["elements"]), pseudo_elements=list(case["pseudo_elements"]))
-        return Network(filelist=path, fileformats=case["fmt"], **kw)
+        sec = case.get("second")
+        if not sec:
+            return Network(filelist=path, fileformats=case["fmt"], **kw)
+        fd2, path2 = tempfile.mkstemp(prefix="vt-", suffix="." + sec["fmt"])
+        try:
+            with os.fdopen(fd2, "w") as f:
+                f.write("\n".join(sec["lines"]) + ("\n" if sec.get("trailing_newline", True) else ""))
+            if case.get("second_route") == "add-from-file":
+                net = Network(filelist=path, fileformats=case["fmt"], **kw)
+                net.add_reaction_from_file(path2, sec["fmt"])
+                return net
+            return Network(filelist=[path, path2], fileformats=[case["fmt"], sec["fmt"]], **kw)
+        finally:
+            os.unlink(path2)
     finally:
         os.unlink(path)
 
@@ -114,6 +151,11 @@ def check_case(case, tier):
         labels.append("blank-line")
     if case.get("elements"):
         labels.append("custom-symbol-lists")
+    second = case.get("second")
+    if second:
+        labels += ["two-files", f"second-{case['second_route']}"]
+        if {lr["idx"] for lr in second["expected"]} & {lr.get("idx") for lr in case["expected"]} - {-1}:
+            labels.append("index-reused-by-second-file")
     try:
         net = read_network(case)
     except Exception as e:
@@ -126,6 +168,15 @@ def check_case(case, tier):
         net = None
     if net is not None:
         rl = net.reaction_list
+        if second and len(rl) == len(case["expected"]) + len(second["expected"]):
+            for k, (parsed, lr) in enumerate(zip(rl[len(case["expected"]):], second["expected"])):
+                sub = []
+                compare(parsed, lr, second.get("variant", {}), k, sub)
+                failures += [(key + "/second-file", msg) for key, msg in sub]
+            rl = rl[: len(case["expected"])]
+        elif second:
+            failures.append((f"decode/{fmt}+{second['fmt']}/count-two-files", f"{len(rl)} reactions for {len(case['expected'])} + {len(second['expected'])} data lines"))
+            rl = rl[: len(case["expected"])]
         if len(rl) != len(case["expected"]):
             empties = sum(1 for r in rl if not r.reactants and not r.products)
             kind = "empty-reactions-from-nondata-lines" if empties and len(rl) - empties == len(case["expected"]) else "count"
